@@ -215,6 +215,18 @@ impl Display for Date {
 
 // DateOffset
 
+/// Shift a date by a number of days, stopping at the first or the last representable date
+/// instead of overflowing.
+pub fn add_days_saturating(date: NaiveDate, days: i64) -> NaiveDate {
+    Duration::try_days(days)
+        .and_then(|delta| date.checked_add_signed(delta))
+        .unwrap_or(if days < 0 {
+            NaiveDate::MIN
+        } else {
+            NaiveDate::MAX
+        })
+}
+
 #[derive(Clone, Copy, Debug, Default, Hash, PartialEq, Eq)]
 pub struct DateOffset {
     pub wday_offset: WeekDayOffset,
@@ -224,7 +236,7 @@ pub struct DateOffset {
 impl DateOffset {
     #[inline]
     pub fn apply(&self, mut date: NaiveDate) -> NaiveDate {
-        date += Duration::days(self.day_offset);
+        date = add_days_saturating(date, self.day_offset);
 
         match self.wday_offset {
             WeekDayOffset::None => {}
@@ -233,16 +245,16 @@ impl DateOffset {
                     - target.days_since(Weekday::Mon))
                     % 7;
 
-                date -= Duration::days(diff.into());
-                debug_assert_eq!(date.weekday(), target);
+                date = add_days_saturating(date, -i64::from(diff));
+                debug_assert!(date.weekday() == target || date == NaiveDate::MIN);
             }
             WeekDayOffset::Next(target) => {
                 let diff = (7 + target.days_since(Weekday::Mon)
                     - date.weekday().days_since(Weekday::Mon))
                     % 7;
 
-                date += Duration::days(diff.into());
-                debug_assert_eq!(date.weekday(), target);
+                date = add_days_saturating(date, diff.into());
+                debug_assert!(date.weekday() == target || date == NaiveDate::MAX);
             }
         }
 
